@@ -8,7 +8,7 @@ from ..core import Report
 from ..fa import FA, fa_of
 from ..model import Program
 from ..rules import names
-from ..sym import Term, contains, leaves, negate, show, subterms
+from ..sym import Poly, Term, contains, leaves, negate, show, subterms, term_to_poly
 
 FILES = ["kappadata/collators/base/kd_collator_base.py", "kappadata/collators/base/kd_compose_collator.py",
          "kappadata/collators/base/kd_single_collator.py", "kappadata/collators/base/kd_single_collator_wrapper.py",
@@ -43,6 +43,7 @@ def run(prog: Program, rep: Report, tier: str):
     call_impl(prog, rep)
     collate_callers(prog, rep)
     pad_sequences(prog, rep)
+    pad_dispatch(prog, rep)
     pad_stateless(prog, rep)
     compose_config(prog, rep)
     names.check(prog, rep, FILES, clause="C18.G1", floor=15)
@@ -463,6 +464,76 @@ def pad_stateless(prog: Program, rep: Report):
     rep.decide(not st, "G8.collate-stateless", fi, "no-store-on-self", "collate writes nothing onto the collator",
                "; ".join(f"{w} (line {ln})" for ln, w in st[:3]) + ": PadSequencesCollator.collate keeps state on the collator "
                "between batches", line=st[0][0] if st else fi.node.lineno, clause="C18.3")
+
+
+def pad_dispatch(prog: Program, rep: Report):
+    """Which fields are padded: decided on the path conditions of the pad_sequence / default_collate calls, whatever the shape of
+    the code around them (loop, helper per field, comprehension)."""
+    from .sampler_common import GiveUp, formula_atoms, formula_eval, path_condition
+    rep.rule("G9.pad-dispatch", "in PadSequencesCollator, wherever the choice between pad_sequence and default_collate is made by a "
+             "test on torch.is_tensor(f) and f.ndim: a field is padded exactly if it is a tensor of rank >= 1 - the condition of "
+             "the pad_sequence call implies 'is_tensor and ndim > 0' and the condition of the sibling default_collate call "
+             "excludes it, for every rank 0..4 and every value of the other tests")
+    C = prog.raw.cls("PadSequencesCollator")
+    import itertools
+    n_sites = 0
+    for fi in C.methods.values():
+        fa = fa_of(prog.raw, fi)
+        cfg = fa.cfg
+        calls = [(n, c, "pad") for n, c in fa.calls_named("pad_sequence")] + [(n, c, "dc") for n, c in fa.calls_named("default_collate")]
+        conds = {}
+        for n, c, kind in calls:
+            try:
+                D, _np = path_condition(fa, cfg.entry, {n}, set(cfg.nodes))
+            except GiveUp:
+                continue
+            atoms = formula_atoms(D)
+            tens = [a for a in atoms if a[0] == "call" and a[2] and (a[1] == ("global", "torch.is_tensor") or (
+                a[1] == ("global", "isinstance") and len(a[2]) == 2 and a[2][1] == ("global", "torch.Tensor")))]
+            if not tens:
+                continue
+            conds[n] = (c, kind, D, atoms, tens[0])
+        for n, (c, kind, D, atoms, A) in conds.items():
+            n_sites += 1
+            F = A[2][0]
+            nd_attr = ("attr", F, "ndim")
+            rank_atoms = [a for a in atoms if a != A and nd_attr in set(subterms(a))]
+            others = [a for a in atoms if a != A and a not in rank_atoms]
+
+            def rank_value(a, r):
+                # a is ('eq' | 'lt', poly in ndim): evaluate at ndim = r
+                if a[0] not in ("eq", "lt"):
+                    return None
+                p = term_to_poly(a[1]).subst(nd_attr, Poly.const(r))
+                v = p.const_value()
+                if v is None:
+                    return None
+                return (v == 0) if a[0] == "eq" else (v < 0)
+            bad = None
+            undecided = False
+            for r in range(5):
+                for is_t in (False, True):
+                    for row in itertools.product((False, True), repeat=len(others)):
+                        val = dict(zip(others, row))
+                        val[A] = is_t
+                        for a in rank_atoms:
+                            rv = rank_value(a, r)
+                            if rv is None:
+                                undecided = True
+                                rv = False
+                            val[a] = rv
+                        taken = formula_eval(D, val)
+                        spec = is_t and r > 0
+                        if kind == "pad" and taken and not spec and bad is None:
+                            bad = f"a field that is {'a tensor of rank 0' if is_t else 'not a tensor'} reaches pad_sequence"
+                        if kind == "dc" and taken and spec and bad is None:
+                            bad = (f"a tensor field of rank {r} reaches default_collate instead of pad_sequence: variable-length "
+                                   f"fields of that rank are stacked (and fail) instead of being padded")
+            verdict = None if (undecided and bad is None) else bad is None
+            o = rep.decide(verdict, "G9.pad-dispatch", fi, f"{'pad_sequence' if kind == 'pad' else 'default_collate'}@{fi.name}",
+                           "reached exactly by the fields it is meant for", bad or "rank test of unrecognised shape",
+                           line=c.lineno, clause="C18.3")
+    rep.floor("pad / collate call sites dispatched on is_tensor", n_sites, 0)
 
 
 def pad_sequences(prog: Program, rep: Report):
